@@ -666,7 +666,7 @@ class SymEngine:
             return options[e.side]
         if i < len(self.forced):
             k = self.forced[i]
-        elif self.max_depth is not None and i >= self.max_depth:
+        elif self.max_depth is not None and self._ndecisions() >= self.max_depth:
             raise Truncate()
         else:
             k = 0
@@ -698,7 +698,7 @@ class SymEngine:
             self.depth += 1
             self.model = None
             return side
-        if self.max_depth is not None and i >= self.max_depth:
+        if self.max_depth is not None and self._ndecisions() >= self.max_depth:
             raise Truncate()
         self._need_model()
         side = self.eval_cond(c)
@@ -755,6 +755,10 @@ class SymEngine:
             return self._mentions_watched(x)
         finally:
             self.watched = saved
+
+    def _ndecisions(self):
+        """number of real decisions (branches / choices, not assumptions) on the current path"""
+        return sum(1 for e in self.trace if e.kind != "A")
 
     def realise(self, x):
         """machine value of a symbolic number: fork over every value the path allows"""
@@ -892,13 +896,14 @@ class SymEngine:
         return obj
 
     # ---- exploration
-    def explore(self, fn, forced=(), max_depth=None, max_paths=None, deadline=None, on_path=None):
+    def explore(self, fn, forced=(), max_depth=None, max_paths=None, deadline=None, on_path=None, slice_s=None):
         """run fn(self) over every feasible path below the forced decision prefix.
 
         on_path(outcome, engine) is called after each completed path with outcome
         ("ok", result) or ("inconclusive", reason).  Returns dict(paths, truncated, exhausted)."""
         self.forced = list(forced)
         self.max_depth = max_depth
+        t_begin = time.time()
         nf = len(self.forced)
         self.prefix = []
         npaths = 0
@@ -960,6 +965,9 @@ class SymEngine:
             if (max_paths is not None and npaths >= max_paths) or (deadline is not None and time.time() > deadline):
                 exhausted = False
                 break
+            if slice_s is not None and time.time() - t_begin > slice_s:
+                truncated.extend(self._pending(tr, nf))     # hand the rest of the subtree over as new tasks
+                break
         while self.depth:
             self.solver.pop()
             self.depth -= 1
@@ -968,6 +976,20 @@ class SymEngine:
 
     def decision_vector(self):
         return [-1 if e.kind == "A" else int(e.side) for e in self.trace]
+
+    @staticmethod
+    def _pending(tr, nf):
+        """forced prefixes covering exactly the unexplored remainder of the DFS whose next path starts with `tr`"""
+        vec = [-1 if e.kind == "A" else int(e.side) for e in tr]
+        out = [list(vec)]
+        for idx in range(nf, len(tr) - 1):
+            e = tr[idx]
+            if e.kind == "B" and e.other:
+                out.append(vec[:idx] + [int(not e.side)])
+            elif e.kind == "C":
+                for k in range(e.side + 1, e.side + 1 + e.remaining):
+                    out.append(vec[:idx] + [k])
+        return out
 
 
 class Dec:
